@@ -12,7 +12,7 @@
                                  the call-site parameter site *)
 From Coq Require Import List Bool Arith.
 From NM Require Import Engine EngineSpec MiniGo Flow Guard Contract Infer.
-From NP Require Import EngineMain FlowProofs GuardProofs ContractProofs WholeProofs InferSound.
+From NP Require Import EngineMain FlowProofs GuardProofs ContractProofs WholeProofs InferSound InferLoop.
 Import ListNotations.
 
 (* an accepted contract is true of every execution of the function, in any program *)
@@ -66,16 +66,32 @@ Proof. exact infer_examples. Qed.
 
 (* ---- the inference algorithm itself (model M10 = transcription of functioncontracts/infer.go, tied to the code by a
    two-directional correspondence on every run) ----
-   infer_checked F fuel = the transcribed inferContracts says contract(nonnil -> nonnil), every value of F is plain
-   (its nilness is read off the value or the table, without following operands), and the final state of the work
-   list passed the post-fixpoint check `stable` (evaluated by the correspondence suite on every function it sees).
+   infer_checked F fuel = the transcribed inferContracts says contract(nonnil -> nonnil) and the final state of the work
+   list passed the post-fixpoint check `stable` (evaluated by the correspondence suite on every function it sees;
+   implied, see C20_worklist_ends_in_postfixpoint).
    reach F b e = an execution of the abstract SSA function F reaches block b with environment e (e v = true: v is
-   nil now), under nilaway's notion of nilness: see proofs/InferSound.v.
+   nil now), under nilaway's notion of nilness: see proofs/InferSound.v.  Every state keeps wrapper values
+   (ChangeInterface, MakeInterface, Slice, append(x), ...) in step with their operand: exact for `semiplain` functions
+   (counted by the suite), an idealisation justified by SSA dominance for the others.
    Then: whenever an execution returns r with a non-nil contracted parameter, r is non-nil. *)
 Theorem C20_inferred_contract_true : forall F fuel, infer_checked F fuel = true ->
   forall b e r, reach F b e -> ib_ret (block F b) = Some r -> e (if_param F) = false -> e r = false.
 Proof. exact infer_checked_is_sound. Qed.
 Print Assumptions C20_inferred_contract_true.
+
+(* the work list always ends in a post-fixpoint (control-flow graphs whose entry block has no predecessor and in which no
+   block has the same predecessor twice), so the validation is implied: what the transcribed inferContracts returns is
+   true.  `infer` is what the two-directional correspondence compares with the real inferContracts on every run. *)
+Theorem C20_worklist_ends_in_postfixpoint : forall F, wf_cfg F = true ->
+  forall fuel s, loop F fuel {| i_sets := []; i_seen := [] |} [0] = IDone s -> stable F s = true.
+Proof. exact loop_stable. Qed.
+Print Assumptions C20_worklist_ends_in_postfixpoint.
+
+Theorem C20_inference_is_sound : forall F fuel,
+  wf_fn F = true -> wf_cfg F = true -> infer F fuel = IInferred ->
+  forall b e r, reach F b e -> ib_ret (block F b) = Some r -> e (if_param F) = false -> e r = false.
+Proof. exact infer_sound. Qed.
+Print Assumptions C20_inference_is_sound.
 
 (* the inference accepts a guard and a guarded loop, and (since the repair of F45) not the function that returns nil
    when two fresh allocations differ -- which the semantics can execute *)
@@ -84,6 +100,9 @@ Example C20_infer_checked_examples :
   infer_checked ex_loop 100 = true /\ infer ex_loop 100 = IInferred /\
   infer_checked ex_distinct 100 = false /\ infer ex_distinct 100 = INotInferred.
 Proof. exact infer_checked_examples. Qed.
+Example C20_infer_wrapper_example :
+  infer_checked ex_iface 100 = true /\ infer ex_iface 100 = IInferred /\ plain ex_iface = false /\ semiplain ex_iface = true.
+Proof. exact infer_wrapper_example. Qed.
 Example C20_semantics_refutes_distinct :
   exists b e r, reach ex_distinct b e /\ ib_ret (block ex_distinct b) = Some r /\ e (if_param ex_distinct) = false /\ e r = true.
 Proof. exact distinct_returns_nil. Qed.
